@@ -104,7 +104,9 @@ func runC03(rc *RC) {
 	if rc.Ch.Chance("workload", 1, 2) {
 		rc.Net.Chunk = func() int { return 1 + rc.Ch.Int("net", 90) }
 	}
-	switch k := rc.Ch.Int("workload", 9); {
+	switch k := rc.Ch.Int("workload", 10); {
+	case k == 9:
+		c03ConcurrentReceivers(rc)
 	case k == 8:
 		c03SharedFeature(rc)
 	case k%2 == 0:
